@@ -77,8 +77,8 @@ static M sym_eig(int n, double cond, double scale, int indefinite){
   return a;
 }
 static void rand_perm(int n, int *p){ for(int i = 0; i < n; i++) p[i] = i; for(int i = n - 1; i > 0; i--){ int j = (int)vr_int(&R, 0, i), t = p[i]; p[i] = p[j]; p[j] = t; } }
-static const char *CLS[] = {"spd", "symm", "diag", "perm", "zlm", "tri", "toeplitz", "general", "intsmall"};
-enum { SPD, SYMM, DIAG, PERM, ZLM, TRI, TOEP, GEN, INTS, NCLS };
+static const char *CLS[] = {"spd", "symm", "diag", "perm", "zlm", "tri", "toeplitz", "general", "intsmall", "graded"};
+enum { SPD, SYMM, DIAG, PERM, ZLM, TRI, TOEP, GEN, INTS, GRADED, NCLS };
 static M gen_square(int cls, int n, int *is_int){
   double cond = pow(10.0, 6.0 * vr_unif(&R) * vr_unif(&R)), scale = ldexp(1.0, (int)vr_int(&R, -10, 10));
   *is_int = 0;
@@ -94,6 +94,16 @@ static M gen_square(int cls, int n, int *is_int){
     case TRI: { M a = mk(n, n); int up = vr_unif(&R) < 0.5; for(int i = 0; i < n; i++){ E(a,i,i) = scale * lognrm(0.05, 1.0) * (vr_unif(&R) < 0.5 ? -1 : 1); for(int j = 0; j < i; j++){ double v = scale * 0.5 * vr_norm(&R) / n; if(up) E(a,j,i) = v; else E(a,i,j) = v; } } return a; }
     case TOEP: { M a = mk(n, n); double d = 2 + vr_unif(&R), o = -1; for(int i = 0; i < n; i++){ E(a,i,i) = d * scale; if(i) E(a,i,i-1) = E(a,i-1,i) = o * scale; } return a; }
     case INTS: { M a = mk(n, n); for(int i = 0; i < n; i++) for(int j = 0; j < n; j++) E(a,i,j) = (double)vr_int(&R, -3, 3); *is_int = 1; return a; }
+    case GRADED: { /* well-conditioned dense matrix with a zero (or tiny) pivot position and entries of very different magnitude in the
+                      same column: a pivot search must take the LARGEST candidate, not merely a non-zero one */
+      M a = with_sv(n, n, 1.0 + 50.0 * vr_unif(&R), scale);
+      if(n >= 3){
+        int c = (int)vr_int(&R, 0, n - 2);
+        E(a,c,c) = vr_unif(&R) < 0.5 ? 0.0 : scale * 1e-13;
+        int r = (int)vr_int(&R, c + 2 < n ? c + 2 : n - 1, n - 1);
+        E(a,r,c) = scale * 1e-14 * (vr_unif(&R) < 0.5 ? -1 : 1);
+      }
+      return a; }
     default: return with_sv(n, n, cond, scale);
   }
 }
